@@ -155,6 +155,50 @@ def oracle(scen, out):
     return bad
 
 
+def cli_key_sets(ctx):
+    """the command line front end hands in_toto_verify EVERY key named by --layout-keys, --verification-keys and --gpg: a
+    layout signed by only one of two keys given through different options is under-signed - exit status 1, no inspection
+    command runs; signed by both - 0 and the inspection runs.  -> (cases, problems)"""
+    import shutil
+    from in_toto.models.layout import Inspection, Layout
+    from in_toto.models.metadata import Metablock
+    from harness import c18lib as L18
+    problems, n = [], 0
+    ks = L18.KeyStore(ctx.work)
+    try:
+        for signers, want in ((["e1"], 1), (["led"], 1), (["e1", "led"], 0)):
+            d = os.path.join(ctx.work, "c07cli")
+            shutil.rmtree(d, ignore_errors=True)
+            os.makedirs(os.path.join(d, "links"))
+            os.makedirs(os.path.join(d, "cwd"))
+            ks.put(d, "e1", "led")
+            log = os.path.join(d, "insp.log")
+            md = Metablock(signed=Layout(steps=[], inspect=[Inspection(name="look", run=["sh", "-c", "echo ran >> %s" % log])],
+                                         keys={}, expires="2099-01-01T00:00:00Z"))
+            for nm in signers:
+                ks.sign(md, nm)
+            md.dump(os.path.join(d, "root.layout"))
+            for order in (0, 1):
+                n += 1
+                if os.path.exists(log):
+                    os.remove(log)
+                a = ["--layout-keys", "../keys/led.pub", "--key-types", "ed25519"]
+                b = ["--verification-keys", "../keys/e1.pub.pem"]
+                argv = ["-l", "../root.layout", "--link-dir", "../links"] + (a + b if order == 0 else b + a)
+                st, flags = L18.run_main("verify", argv, os.path.join(d, "cwd"))
+                ran = os.path.exists(log)
+                if st != want or ran != (want == 0):
+                    problems.append("in-toto-verify %s on a layout signed by %s only: exit status %r%s, inspection command %s - "
+                                    "every key given on the command line must have signed (expected status %d, inspection %s)"
+                                    % (" ".join(argv), "+".join(signers), st,
+                                       " (uncaught %s)" % flags["uncaught"] if flags.get("uncaught") else "",
+                                       "ran" if ran else "did not run", want, "runs" if want == 0 else "does not run"))
+            shutil.rmtree(d, ignore_errors=True)
+    finally:
+        ks.close()
+    return n, problems
+
+
 def run(ctx):
     n = 2400 if ctx.thorough() else 420
     if os.path.exists(os.path.join(core.COQ, "Props", "C07.v")):
@@ -174,6 +218,9 @@ def run(ctx):
         ctx.oblige("cli-default-inspection-time-limit", got == _st.LINK_CMD_EXEC_TIMEOUT and got is not None, repr(got))
     except SystemExit:
         ctx.oblige("cli-default-inspection-time-limit", False, "argument parser rejected a minimal command line")
+    cli_n, cli_bad = cli_key_sets(ctx)
+    for pr in cli_bad[:3]:
+        ctx.violation("command line key sets: " + pr[:600], {"cli_key_sets": True, "what": pr})
     pinned, _, _ = vscen.run_all(ctx, [], 0, use_gpg=True, pinned=PINNED)
     pinned_summary = vscen.check_expectations(ctx, pinned, vcore.replay_file)
     recs, model = vcore.run_scenarios(ctx, OPT_SETS, n,
@@ -214,7 +261,7 @@ def run(ctx):
                                            "with disagreeing materials / products; failing sublayouts; violated step rules. compared with "
                                            "the model: verdict class, summary link, ordered log = model trace. non-trivial = at least one "
                                            "inspection somewhere in the scenario; distinct = different (root file, link dir, keys)",
-                                   "pinned": pinned_summary,
+                                   "pinned": pinned_summary, "cli_key_set_cases": cli_n,
                                    "stage_x_inspections_x_ran": dict(sorted(dist.items())), "rejecting_stage": by_stage,
                                    "rejected_with_inspections_left_unrun": not_run, "oracle_violations": len(bad),
                                    "oracle": "on the implementation's log alone: no duplicates; per layout a prefix of its inspection "
@@ -233,6 +280,15 @@ def _oracle(r, scen, outs, wd):
 
 
 def replay(ctx, obj):
+    if obj.get("replay", {}).get("cli_key_sets"):
+        _, bad = cli_key_sets(ctx)
+        for pr in bad:
+            print("  -> " + pr[:400])
+        if bad:
+            print("VIOLATION property=C07 replay=%s" % obj.get("rerun", "").split()[-1])
+            return 1
+        print("agree")
+        return 0
     if "request" not in obj.get("replay", {}):
         return vcore.replay_obligations(ctx, "C07", obj, PROPS, ("verify", "inspections"))
     return vcore.replay(ctx, "C07", obj, oracle=_oracle)
